@@ -147,8 +147,8 @@ def part_a(chk, asan, quick):
 def gen_case(chk, i):
     rng = chk.rng(i)
     mc = "V" if i % 3 else "6"
-    ncpu = rng.randint(2, 6)
-    nth = rng.randint(2, 6)
+    ncpu = rng.randint(2, 6) if rng.random() < 0.8 else rng.randint(9, 18)
+    nth = rng.randint(2, 6) if ncpu <= 6 else rng.randint(6, 14)
     desc = {"looms": [{"name": "bd", "cpus": [(k, k) for k in range(ncpu)],
                        "procs": [{"pid": 5, "appid": 1, "threads": list(range(50, 50 + nth))}]}]}
     g = histgen.Gen(rng, desc, mc, {}, weights={"task": 10, "model": 8, "state": 3, "aff": 3, "misc": 0, "mark": 0, "kernel": 0},
